@@ -27,7 +27,7 @@ func randCase(r *rand.Rand, s string) string {
 }
 
 func htmlName(r *rand.Rand) string {
-	names := []string{"a", "b", "div", "span", "p", "h1", "ul", "li", "table", "td", "section", "my-el", "x2", "em", "custom-tag", "form", "label", "o:p"}
+	names := []string{"a", "b", "div", "span", "p", "h1", "ul", "li", "table", "td", "section", "my-el", "x2", "em", "custom-tag", "form", "label", "o:p", "z", "zz-y", "a", "article"}
 	return Pick(r, names)
 }
 
@@ -191,7 +191,7 @@ func HTMLDoc(r *rand.Rand, o HTMLOpts) (doc string, toks []XTok) {
 		sname := randCase(r, name)
 		trail := ""
 		if r.Intn(4) == 0 {
-			trail = Pick(r, []string{" ", "\n", "\t ", "  "})
+			trail = Pick(r, []string{" ", "\n", "\t ", "  ", "\r", "\f", "\r\n", "\t", "\f\n "})
 		}
 		emit(XTok{Type: "EndTag", Data: "</" + sname + trail + ">", Norm: "</" + name + trail + ">", Text: name})
 	}
